@@ -359,8 +359,24 @@ def determinism_harness(e):
 
     first = make(kw1)
     id1 = first.id
-    how = e.pick(["detach_self", "dropped", "replace-same-content", "dataclasses.replace-after-detach", "duplicate-after-detach"], "predecessor")
+    how = e.pick(["detach_self", "dropped", "replace-same-content", "dataclasses.replace-after-detach", "duplicate-after-detach", "still-registered"], "predecessor")
     scenario = {"class": cname, "digest_size": size, "origin": okey, "with_child": bool(with_kid), "predecessor": how, "first": repr(kw1), "second": repr(kw2)}
+    if how == "still-registered":
+        # the other clause: a twin created while the first is registered gets another id, and
+        # both are returned under their own ids (whatever the class: falsy, slotted, ...)
+        via = e.pick(["constructor", "dataclasses.replace", "duplicate"], "twin_made_by")
+        second = make(kw2) if via == "constructor" else (dataclasses.replace(first, **kw2) if via == "dataclasses.replace" else first.duplicate())
+        scenario.update(twin_made_by=via, first_id=id1, second_id=second.id)
+        if second.id == first.id:
+            e.fail("duplicate-ids-among-registered:" + cname, scenario=scenario)
+        if NODE_REGISTRY.get(first.id) is not first or NODE_REGISTRY.get(second.id) is not second or cls.get(first.id) is not first:
+            e.fail("live-node-not-returned", scenario=scenario)
+        third = make(kw2)
+        if len({first.id, second.id, third.id}) != 3 or NODE_REGISTRY.get(third.id) is not third or NODE_REGISTRY.get(second.id) is not second:
+            scenario.update(third_id=third.id)
+            e.fail("duplicate-ids-among-registered:" + cname, scenario=scenario)
+        e.distinct((size, cname, okey, bool(with_kid), how, via))
+        return scenario
     if how == "detach_self":
         first.detach_self()
         second = make(kw2)
